@@ -13,26 +13,7 @@ LEAKS = {"std::mem::forget", "std::mem::ManuallyDrop::new", "std::boxed::Box::le
 MAP_SHARED, MAP_PRIVATE, MAP_FIXED = 0x01, 0x02, 0x10
 
 
-def same_expr(a, b, depth=0):
-    if a is None or b is None or depth > 20:
-        return False
-    a = peel(a, through_try=False)
-    b = peel(b, through_try=False)
-    if a.k != b.k:
-        return False
-    if a.k == "param":
-        return a.idx == b.idx
-    if a.k == "const":
-        return a.v is not None and a.v == b.v
-    if a.k == "field":
-        return a.idx == b.idx and same_expr(a.a, b.a, depth + 1)
-    if a.k == "call":
-        return a.bb == b.bb and a.q == b.q
-    if a.k == "bin":
-        return a.op == b.op and same_expr(a.a, b.a, depth + 1) and same_expr(a.b, b.b, depth + 1)
-    if a.k in ("local", "multi"):
-        return a.local == b.local
-    return False
+from ..mir import same_expr
 
 
 def const_values(e, depth=0):
